@@ -200,6 +200,59 @@ def run_fragment(body: Sequence[ast.stmt], names: Dict[str, Any], attrs: Optiona
             else:
                 env[t.value.id] = base
             return
+        if isinstance(t.slice, ast.Tuple) and len(t.slice.elts) >= 3 and isinstance(t.slice.elts[0], ast.Constant) and t.slice.elts[0].value is Ellipsis and not any(isinstance(e_, ast.Constant) and e_.value is Ellipsis for e_ in t.slice.elts[1:]):
+            # base[..., i, j] = v / base[..., i, :] = v : integer positions (or whole axes) of the trailing axes
+            import itertools as _it
+
+            from .constfold import _at, _regular, _shape
+
+            bs_ = _regular(base)
+            tr_ = []
+            for e_ in t.slice.elts[1:]:
+                if isinstance(e_, ast.Slice):
+                    if e_.lower is not None or e_.upper is not None or e_.step is not None:
+                        raise Unfoldable("partial slice after an ellipsis in a store")
+                    tr_.append(None)
+                else:
+                    j_ = fold(e_)
+                    if not (isinstance(j_, int) and not isinstance(j_, bool)):
+                        raise Unfoldable("store index")
+                    tr_.append(j_)
+            k_ = len(tr_)
+            if k_ > len(bs_):
+                raise Unfoldable("too many indices")
+            lead_ = bs_[: len(bs_) - k_]
+            tail_ = bs_[len(bs_) - k_:]
+            for j_, n_ in zip(tr_, tail_):
+                if j_ is not None and not (-n_ <= j_ < n_):
+                    raise Unfoldable("store index out of range")
+            kept_ = [n_ for j_, n_ in zip(tr_, tail_) if j_ is None]
+            tshape_ = lead_ + kept_
+            vs_ = _shape(v) if isinstance(v, list) else []
+            if isinstance(v, list):
+                _regular(v)
+                if len(vs_) > len(tshape_) or any(a_ != b_ and a_ != 1 for a_, b_ in zip(vs_[::-1], tshape_[::-1])):
+                    raise Unfoldable("store shape mismatch")
+            off_ = len(tshape_) - len(vs_)
+            for idx_ in _it.product(*[range(n_) for n_ in tshape_]):
+                val_ = _at(v, tuple((0 if vs_[a_ - off_] == 1 else idx_[a_]) for a_ in range(off_, len(tshape_)))) if isinstance(v, list) else v
+                cur_ = base
+                full_ = list(idx_[: len(lead_)])
+                kk_ = len(lead_)
+                for j_, n_ in zip(tr_, tail_):
+                    if j_ is None:
+                        full_.append(idx_[kk_])
+                        kk_ += 1
+                    else:
+                        full_.append(j_ % n_)
+                for a_ in full_[:-1]:
+                    cur_ = cur_[a_]
+                cur_[full_[-1]] = copy.deepcopy(val_)
+            if in_attrs:
+                attrs[_chain(t.value)] = base
+            else:
+                env[t.value.id] = base
+            return
         if not isinstance(t.slice, (ast.Tuple, ast.Slice)):
             mask_ = fold(t.slice)
             if isinstance(mask_, BoolList):
